@@ -17,6 +17,10 @@ abse() * factor(units()), factors from the published tables, mc/refmodels/quanti
   rebase         q.rebase() (in-place merge of units repeating a dimension: cm*m -> cm2) is a linear conversion:
                  abse scaled like the value (compared in base dimensions), rele() unchanged
   same object    q+q, q-q, q*q, q/q with both operands the very same object obey the same clauses as two operands
+  number->angle  a unit-less uncertain quantity converted to rad / mrad is a linear conversion like any other
+  logarithmic    sums / differences of levels in dB, dBm, Np, B, cNp (same unit on both sides, different
+                 uncertainties): the result's uncertainty is the sum of the operands' uncertainties
+  Decimal        sums / differences with a Decimal magnitude on the left, on the right or on both sides
   zero values    operands whose value is exactly 0 (scalar / array element) take part in construction, sums, exact
                  factors, conversions and rebase; a nan uncertainty there is a failure (it is neither the sum nor the
                  scaled error); rele() is compared only on non-zero elements (undefined at 0)
@@ -74,7 +78,19 @@ SUM_UNITS = [(U_M, U_M), (U_M, U_CM), (U_KM, U_M), (U_CM, U_KM), (U_NONE, U_NONE
 MUL_UNITS = [(U_M, U_M), (U_M, U_S), (U_KM, U_M), (U_NONE, U_NONE), (U_M, U_NONE)]
 UNARY_UNITS = [U_M, U_KM, U_NONE]
 FACTOR_UNITS = [None, U_NONE, U_S]           # None: plain Python number; else an exact Quantity in that unit
-CONVERSIONS = [(U_M, U_CM), (U_CM, U_KM), (U_J, U_ERG), (U_KMH, U_MS), (U_M, U_M), (U_KGM2S2, U_J), (U_S, U_MIN)]
+U_RAD = (("", "rad", 1),)
+U_MRAD = (("m", "rad", 1),)
+CONVERSIONS = [(U_M, U_CM), (U_CM, U_KM), (U_J, U_ERG), (U_KMH, U_MS), (U_M, U_M), (U_KGM2S2, U_J), (U_S, U_MIN),
+               (U_NONE, U_RAD), (U_NONE, U_MRAD), (U_RAD, U_MRAD)]          # a bare number is an angle in radians
+# levels: same logarithmic unit on both sides of + / -
+LOG_UNITS = [(("d", "B", 1),), (("d", "Bm", 1),), (("", "Np", 1),), (("", "B", 1),), (("c", "Np", 1),)]
+LOG_LEFT = [20.0, 3.0, [30.0, 10.0]]
+LOG_RIGHT = [10.0, 1.0, [3.0, 2.0]]
+LOG_ERRORS = [None, ["abse", 0.1], ["abse", 0.5], ["rele", 10.0]]
+# Decimal magnitudes (given as text) next to float ones, in sums and differences
+DEC_VALUES = ["3", "-0.25", "0.5"]
+DEC_ERRORS = [None, ["abse", 0.1], ["abse", 0.5]]
+DEC_FLOAT_VALUES = [3.0, -0.25]
 _LEN = [U_M, U_CM, U_KM, (("m", "m", 1),), (("", "in", 1),), (("", "ft", 1),), (("", "au", 1),)]
 _ENE = [U_J, U_ERG, U_KGM2S2, (("", "eV", 1),), (("k", "cal", 1),)]
 CONVERSIONS_T = CONVERSIONS + [(a, b) for grp in (_LEN, _ENE) for a in grp for b in grp
@@ -122,6 +138,9 @@ def _mk(o):
     from scinumtools.units import Quantity
     v = o["v"]
     v = list(v) if isinstance(v, (list, tuple)) else v
+    if o.get("dec"):
+        from decimal import Decimal
+        v = Decimal(v)                      # Decimal magnitude, written as text in the case
     kw = {}
     if o["e"] is not None:
         kw[o["e"][0]] = o["e"][1]
@@ -182,6 +201,8 @@ def _factor_of(q):
 
 
 def _vals(o):
+    if o.get("dec"):
+        return np.asarray(float(o["v"]))
     return np.asarray(o["v"], dtype=float)
 
 
@@ -259,6 +280,12 @@ def _tags(case):
             t.append("mixed-units")
         if case.get("same"):
             t.append("same-object")
+        if a.get("dec"):
+            t.append("decimal-left")
+        if b.get("dec"):
+            t.append("decimal-right")
+        if any(sym in ("B", "Bm", "Np") for _, sym, _ in a["u"]):
+            t.append("logarithmic")
     if case["k"] == "pow":
         p = case["p"]
         pv = p[0] / p[1] if isinstance(p, list) else p
@@ -485,6 +512,25 @@ def _cases(tier):
             for a in _operands(ua):
                 for b in _operands(ub):
                     yield dict(k="bin", op=op, a=a, b=b)
+    # levels in logarithmic units: the same unit on both sides, different uncertainties
+    for u in LOG_UNITS:
+        for va in LOG_LEFT:
+            for vb in LOG_RIGHT:
+                for ea in LOG_ERRORS:
+                    for eb in LOG_ERRORS:
+                        yield dict(k="bin", op="add", a=_opnd(va, ea, u), b=_opnd(vb, eb, u))
+                        yield dict(k="bin", op="add", a=_opnd(vb, eb, u), b=_opnd(va, ea, u))
+                        if np.all(np.asarray(va) > np.asarray(vb)):      # a level difference needs a > b
+                            yield dict(k="bin", op="sub", a=_opnd(va, ea, u), b=_opnd(vb, eb, u))
+    # Decimal magnitudes on the left, on the right, on both sides
+    decs = [dict(_opnd(v, e, ()), dec=True) for v in DEC_VALUES for e in DEC_ERRORS]
+    flts = [_opnd(v, e, ()) for v in DEC_FLOAT_VALUES for e in ERRORS]
+    for op in ("add", "sub"):
+        for ua, ub in SUM_UNITS:
+            for a in decs + flts:
+                for b in decs + flts:
+                    if a.get("dec") or b.get("dec"):
+                        yield dict(k="bin", op=op, a=dict(a, u=_ju(ua)), b=dict(b, u=_ju(ub)))
     # both operands the very same object (q*q, q/q, q+q, q-q): same clauses as for two distinct operands
     for u in SELF_UNITS:
         for op in ("add", "sub", "mul", "div"):
@@ -545,6 +591,11 @@ def run_shard(desc):
         uncertain = any(case[x]["e"] is not None for x in ("a", "b") if x in case)
         if uncertain:
             sh.nontrivial += 1
+        if case["k"] == "bin" and label == "ok:sum":
+            if any(sym in ("B", "Bm", "Np") for _, sym, _ in case["a"]["u"]):
+                sh.add_extra("logarithmic_sums", 1)
+            if case["a"].get("dec") or case["b"].get("dec"):
+                sh.add_extra("decimal_sums", 1)
         if case.get("same") and label == "ok:first-order":
             sh.add_extra("same_object_first_order", 1)
         if case["k"] == "to" and uncertain and label.startswith("ok:conversion") and np.any(_vals(case["a"]) == 0):
@@ -586,6 +637,8 @@ def finish(total, tier, seed):
         "same-object products with first-order bound": total.extra.get("same_object_first_order", 0)
             + tot("bin:mul:bad"),
         "zero-valued uncertain operands converted": total.extra.get("zero_value_conversions", 0) + tot("to:bad"),
+        "logarithmic sums": total.extra.get("logarithmic_sums", 0) + tot("bin:add:bad"),
+        "sums with a Decimal magnitude": total.extra.get("decimal_sums", 0) + tot("bin:add:bad"),
         "powers": tot("pow:"),
         "negations": tot("neg:"),
     }
@@ -597,6 +650,9 @@ def finish(total, tier, seed):
         bounds=dict(values=VALUES_T if tier == "thorough" else VALUES, zero_values=ZERO_VALUES,
                     rebase_units=[R.render(R.unit(*u)) for u in REBASE_UNITS],
                     same_object_units=[R.render(R.unit(*u)) for u in SELF_UNITS],
+                    logarithmic_units=[R.render(R.unit(*u)) for u in LOG_UNITS],
+                    logarithmic_values=[LOG_LEFT, LOG_RIGHT], logarithmic_uncertainties=LOG_ERRORS,
+                    decimal_values=DEC_VALUES, decimal_uncertainties=DEC_ERRORS,
                     uncertainties=ERRORS_T if tier == "thorough" else ERRORS,
                     exact_factors=FACTORS_T if tier == "thorough" else FACTORS, powers=POWERS,
                     sum_unit_pairs=[[R.render(a), R.render(b)] for a, b in SUM_UNITS],
@@ -614,7 +670,8 @@ MANIFEST = dict(
          "(5 unit pairs each, incl. mixed prefixes and folding), exact factors {2,-3,0.5,-0.25} as plain numbers and "
          "exact quantities on both sides of * and /, negation, 8 exponents, to() through 7 linear unit pairs with the target as text, BaseUnits, "
          "base-dimension list or exact Quantity k*unit (k=1,2,0.25), rebase() on 8 units that repeat a dimension, "
-         "same-object operands (q*q, q/q, q+q, q-q), zero-valued uncertain operands in every equality clause "
+         "same-object operands (q*q, q/q, q+q, q-q), number->rad/mrad conversions, sums of levels in 5 logarithmic units, "
+         "Decimal magnitudes in sums, zero-valued uncertain operands in every equality clause "
          "(thorough: 10 values x 5 uncertainty kinds, 6 factors, 65 unit pairs; 65 500 cases). "
          "Checked: abse never negative; sums add uncertainties; exact factor scales by |c|; first-order lower bound "
          "for positive uncertain products/quotients; conversion scales abse with the value and keeps rele; exact "
